@@ -59,6 +59,14 @@ def packets(draw):
     room = 65535 - over * count
     mx = 0 if count == 0 else min(room // count, 1500 if count < 40 else 60)
     sizes = draw(st.lists(st.one_of(st.sampled_from([0, 1]), st.integers(0, mx)), min_size=count, max_size=count)) if count else []
+    if count and draw(st.integers(0, 3)) == 0:
+        # fill the packet to within a few bytes of what the packer fills a default-MTU datagram to
+        limit = Packet.MAX_PAYLOAD_SIZE + 2 - draw(st.sampled_from([0, 0, 1, 2, 3]))
+        over = 2 if count == 1 else 5 * count
+        if count <= 200 and limit - over >= 0:
+            rest = limit - over
+            sizes = [rest // count] * count
+            sizes[-1] += rest - sum(sizes)
     raw = draw(st.binary(min_size=3 * count, max_size=3 * count))
     fill = draw(st.binary(min_size=16, max_size=16))
     msgs = []
@@ -305,6 +313,8 @@ def pack_body(ctx, c):
                 since += 1
         if last and since < 150:
             ctx.inconclusive += 1
+        for _ in range(12):      # what was emitted last is still in flight
+            w.step(dt)
         # oracles over the whole history ----------------------------------------------------
         for em in w.net.log:
             if len(em.data) > mtu - 28:
@@ -324,6 +334,13 @@ def pack_body(ctx, c):
             accepted = [r for r in sent[side] if "raised" not in r and r.get("connected", True)]
             if not accepted:
                 continue
+            # loss-free link: every unfragmented message that went onto the wire is decoded and handed over by the peer
+            # (fragmented ones are C05/C06's subject and exposed to the open finding D6 under backlog)
+            undelivered = [r for r in accepted if r["n"] <= P and w.ledger.n_delivered(r["receiver"], r["payload"]) < 1]
+            if undelivered and conn is not None and not conn.outgoing_messages:
+                r = undelivered[0]
+                ctx.violation("pack-emitted-but-not-decoded", "mtu=%d side=%s: %d of %d unfragmented messages never reached the peer application on a loss-free link; e.g. %d bytes retry=%s" % (
+                    mtu, side, len(undelivered), len(accepted), r["n"], r["retry"]))
             if conn is None:
                 ctx.violation("pack-connection-lost", "connection vanished on a perfect network (side %s)" % side)
                 continue
